@@ -279,6 +279,14 @@ func (p *ParagraphReader) Next() (*Paragraph, error) {
 			continue
 		}
 
+		if strings.HasPrefix(line, "-") {
+			/* deb822: a field name must not begin with `#` or `-`. Such a
+			 * line is more likely the armor of a signature we were not
+			 * told to expect here, and a name like `-----BEGIN PGP X`
+			 * could never be read again once written to the top of a file */
+			return nil, fmt.Errorf("Bad line: '%s' starts with a '-'", line)
+		}
+
 		/* So, if we're here, we've got a key line. Let's go ahead and split
 		 * this on the first key, and set that guy */
 		els := strings.SplitN(line, ":", 2)
